@@ -77,13 +77,41 @@ def ty(name):
     return _types[name]
 
 
+def make_literal(g):
+    """a GroundedPredicate object of the described polarity; 'via' says how the object comes about (wave 4: the ways a
+    NEGATIVE ground literal can be made through the public API)"""
+    pos, via = g.get("pos", True), g.get("via", "ctor")
+    sig, mapping = {p: ty(t) for p, t in g["sig"]}, {p: o for p, o in g["map"]}
+    if via == "ctor":
+        return GroundedPredicate(g["name"], sig, mapping, is_positive=pos)
+    if via == "negated-copy":        # the opposite literal, then GroundedPredicate.copy(is_negated=True)
+        return GroundedPredicate(g["name"], sig, mapping, is_positive=not pos).copy(is_negated=True)
+    if via == "flip":                # the attribute assigned after construction (before the object enters a set)
+        lit = GroundedPredicate(g["name"], sig, mapping, is_positive=not pos)
+        lit.is_positive = pos
+        return lit
+    if via == "plain-copy":          # copy() of a literal of the same polarity
+        return GroundedPredicate(g["name"], sig, mapping, is_positive=pos).copy()
+    if via == "effect":              # the literal the library itself grounds among the effects of an action call
+        e = g["effect"]
+        dom = get_domain(e["domain"])
+        op = Operator(dom.actions[e["action"]], dom, list(e["args"]), get_problem(dom, e["problem"]).objects)
+        op.ground()
+        for eff in op.grounded_effects:
+            for lit in eff.grounded_discrete_effects:
+                if lit.name == g["name"] and list(lit.object_mapping.values()) == [o for _, o in g["map"]] \
+                        and bool(lit.is_positive) == pos:
+                    return lit
+        raise ValueError("no such effect literal")
+    raise ValueError("unknown via " + via)
+
+
 def build_ctor(d):
     preds = {}
     for key, grp in d["preds"]:
         st = set()
         for g in grp:
-            st.add(GroundedPredicate(g["name"], {p: ty(t) for p, t in g["sig"]}, {p: o for p, o in g["map"]},
-                                     is_positive=g.get("pos", True)))
+            st.add(make_literal(g))
         preds[key] = st
     fluents = {}
     for key, f in d["fluents"]:
@@ -95,7 +123,10 @@ def build_ctor(d):
         else:
             pf.set_value(float("nan") if f["val"] == "nan" else float.fromhex(f["val"]))
         fluents[key] = pf
-    return State(preds, fluents, is_init=d.get("init", False))
+    state = State(preds, fluents, is_init=d.get("init", False))
+    for key, g in d.get("late", []):     # literals put into the finished state through its public attribute
+        state.state_predicates.setdefault(key, set()).add(make_literal(g))
+    return state
 
 
 _dom_cache = {}
